@@ -5,7 +5,8 @@
    Python) of leaves; a leaf is one command (or a two-stage pipeline, whose code is its last
    stage's) with: rc (exit code 0/1), form (bare, ![..], $[..], $(..), !(..)), dec (none,
    @error_raise, @error_ignore), kind (whether its text also parses as Python: `c /q` vs `c q`),
-   out (whether it prints anything).  Flags: raise = $XONSH_SUBPROC_RAISE_ERROR,
+   out (whether it prints anything), inner (the command is a callable alias that runs a successful
+   command of its own before returning its code).  Flags: raise = $XONSH_SUBPROC_RAISE_ERROR,
    cmdraise = $XONSH_SUBPROC_CMD_RAISE_ERROR.  The statement is followed by a marker statement.
    Run(cfg) evaluates one configuration: the ordered log of leaves that ran, whether the statement
    raised, whether the marker ran. *)
@@ -13,13 +14,13 @@ EXTENDS Naturals, Sequences, FiniteSets, TLC
 
 CONSTANTS MaxLeaves, Forms, Decs, Kinds, Deviations
 
-DevNames == {"Dev_CmdRaiseDependsOnParsePath", "Dev_ValueTruthiness", "Dev_ErrorRaiseRunsTwice"}
+DevNames == {"Dev_CmdRaiseDependsOnParsePath", "Dev_ValueTruthiness", "Dev_LastcmdSeesInner"}
 
 VARIABLES act, res
 vars == <<act, res>>
 
 \* (@error_raise inside a lazy !() raises when the object is consumed, not within the statement: left out)
-Leaves == {l \in [rc : {0, 1}, form : Forms, dec : Decs, kind : Kinds, out : BOOLEAN] : ~(l.form = "object" /\ l.dec = "raise")}
+Leaves == {l \in [rc : {0, 1}, form : Forms, dec : Decs, kind : Kinds, out : BOOLEAN, inner : BOOLEAN] : ~(l.form = "object" /\ l.dec = "raise")}
 Ops == {"and", "or"}
 
 \* ---------------------------- evaluation ----------------------------------------------------
@@ -61,10 +62,15 @@ EndRaises(cfg, e) ==
           IF l.form = "object" THEN cfg.cmdraise ELSE (cfg.raise \/ cfg.cmdraise \/ l.dec = "raise")
      ELSE l.form # "object" /\ cfg.raise
 
+\* the value forms $() / $[] are judged through "the most recent pipeline": when the command is a
+\* callable alias that ran a (successful) command of its own, that inner pipeline is what is seen
+InnerHides(cfg, e) == LET l == cfg.leaves[e.last] IN l.inner /\ l.form \in {"dollar", "dollarsq"}
 Outcome(cfg, truth(_), devRaise, dev) ==
   LET e == Eval(cfg, 1, <<>>, truth, devRaise)
-      raised == e.cut \/ EndRaises(cfg, e)
-  IN [ran |-> e.ran, raised |-> raised, marker |-> ~raised, dev |-> dev]
+      hidden == "Dev_LastcmdSeesInner" \in Deviations /\ ~e.cut /\ InnerHides(cfg, e) /\ EndRaises(cfg, e)
+      raised == e.cut \/ (EndRaises(cfg, e) /\ ~hidden)
+  IN [ran |-> e.ran, raised |-> raised, marker |-> ~raised,
+      dev |-> IF hidden THEN (IF dev = "" THEN "Dev_LastcmdSeesInner" ELSE dev \o "+LastcmdSeesInner") ELSE dev]
 
 Outcomes(cfg) ==
   {Outcome(cfg, TruthOK, FALSE, "")}
